@@ -1,3 +1,291 @@
 package main
 
-func selftest(ids []string) int { return 0 }
+// Sensitivity self-test (thorough tier): the checker is run, through go/packages overlays and in
+// child processes, on
+//   - the mutant catalogue   /verif/mutants/catalog.json  (exact-string edits; each must be reported),
+//   - the seeded changes     /verif/seeded/<Cxx>-<n>/patch.diff (each must be reported),
+//   - the benign refactorings /verif/benign/<id>/patch.diff  (each must leave the check quiet).
+// Nothing is written to /repo. Entries whose text no longer matches the tree are counted as
+// stale, not as failures. The outcome is recorded in the evidence file ("sensitivity"); it never
+// changes the verdict on the tree itself: a missed mutant says the checker is weaker than
+// hoped, not that the repository violates the property.
+
+import (
+	"encoding/json"
+	"fmt"
+	"os"
+	"os/exec"
+	"path/filepath"
+	"regexp"
+	"sort"
+	"strings"
+	"sync"
+)
+
+type mutEdit struct {
+	File    string `json:"file"`
+	Find    string `json:"find"`
+	Replace string `json:"replace"`
+}
+
+type mutant struct {
+	ID    string    `json:"id"`
+	Rules []string  `json:"rules"`
+	Desc  string    `json:"desc"`
+	Edits []mutEdit `json:"edits"`
+	Skip  string    `json:"skip,omitempty"`
+}
+
+type variantResult struct {
+	ID       string   `json:"id"`
+	Kind     string   `json:"kind"` // mutant | seed | benign
+	Status   string   `json:"status"`
+	Rules    []string `json:"rules_fired,omitempty"`
+	Expected []string `json:"rules_expected,omitempty"`
+	Desc     string   `json:"desc,omitempty"`
+}
+
+var firedRule = regexp.MustCompile(`\[(?:violated|undecided)\] (C[0-9]+\.[A-Za-z0-9.]+) `)
+
+// realVerifRoot: the catalogue lives in the committed /verif even when evidence is redirected.
+func catalogueRoot() string {
+	if exe, err := os.Executable(); err == nil {
+		if d := filepath.Dir(filepath.Dir(exe)); fileExists(filepath.Join(d, "mutants")) || fileExists(filepath.Join(d, "seeded")) {
+			return d
+		}
+	}
+	return "/verif"
+}
+
+func fileExists(p string) bool { _, err := os.Stat(p); return err == nil }
+
+func loadMutants(root string) []mutant {
+	var out []mutant
+	b, err := os.ReadFile(filepath.Join(root, "mutants", "catalog.json"))
+	if err != nil {
+		return nil
+	}
+	if json.Unmarshal(b, &out) != nil {
+		return nil
+	}
+	return out
+}
+
+// overlayForEdits materialises the edited files under dir and returns the overlay file, or "" when stale.
+func overlayForEdits(dir string, edits []mutEdit) string {
+	repl := map[string]string{}
+	content := map[string]string{}
+	for _, e := range edits {
+		abs := filepath.Join(repoRoot, e.File)
+		cur, ok := content[abs]
+		if !ok {
+			b, err := os.ReadFile(abs)
+			if err != nil {
+				return ""
+			}
+			cur = string(b)
+		}
+		if strings.Count(cur, e.Find) != 1 {
+			return ""
+		}
+		content[abs] = strings.Replace(cur, e.Find, e.Replace, 1)
+	}
+	i := 0
+	for abs, txt := range content {
+		i++
+		f := filepath.Join(dir, fmt.Sprintf("f%d_%s", i, filepath.Base(abs)))
+		if os.WriteFile(f, []byte(txt), 0o644) != nil {
+			return ""
+		}
+		repl[abs] = f
+	}
+	b, _ := json.Marshal(map[string]any{"Replace": repl})
+	ov := filepath.Join(dir, "overlay.json")
+	if os.WriteFile(ov, b, 0o644) != nil {
+		return ""
+	}
+	return ov
+}
+
+// overlayForPatch uses tools/patch2overlay.py (git apply on copies of the touched files).
+func overlayForPatch(root, dir, patch string) string {
+	cmd := exec.Command("python3", filepath.Join(root, "tools", "patch2overlay.py"), patch, filepath.Join(dir, "ov"))
+	cmd.Env = append(os.Environ(), "REPO="+repoRoot)
+	if err := cmd.Run(); err != nil {
+		return ""
+	}
+	return filepath.Join(dir, "ov", "overlay.json")
+}
+
+// runVariant runs `check <prop> quick` on an overlay in a child process with a private evidence root.
+func runVariant(prop, overlay, dir string) (violations int, rules []string, ok bool) {
+	exe, err := os.Executable()
+	if err != nil {
+		return 0, nil, false
+	}
+	vr := filepath.Join(dir, "verif")
+	os.MkdirAll(filepath.Join(vr, "evidence"), 0o755)
+	if b, err := os.ReadFile(filepath.Join(catalogueRoot(), "known_findings.json")); err == nil {
+		os.WriteFile(filepath.Join(vr, "known_findings.json"), b, 0o644)
+	}
+	cmd := exec.Command(exe, "check", prop, "quick", "-overlay", overlay, "-repo", repoRoot)
+	cmd.Env = append(os.Environ(), "LEDGERLINT_VERIF="+vr, "VERIF_TIER=quick")
+	out, _ := cmd.CombinedOutput()
+	seen := map[string]bool{}
+	for _, l := range strings.Split(string(out), "\n") {
+		if strings.HasPrefix(l, "VIOLATION property="+prop+" ") {
+			violations++
+		}
+		if m := firedRule.FindStringSubmatch(l); m != nil && !seen[m[1]] {
+			seen[m[1]] = true
+			rules = append(rules, m[1])
+		}
+	}
+	sort.Strings(rules)
+	if !strings.Contains(string(out), prop+" quick:") {
+		return violations, rules, false // the child did not reach its summary line
+	}
+	return violations, rules, true
+}
+
+// runSensitivity runs the catalogues that concern prop and returns the evidence block.
+func runSensitivity(prop string) map[string]any {
+	root := catalogueRoot()
+	type job struct {
+		res     variantResult
+		overlay func(dir string) string
+	}
+	var jobs []*job
+	for _, m := range loadMutants(root) {
+		if m.Skip != "" {
+			continue
+		}
+		own := false
+		for _, r := range m.Rules {
+			if strings.HasPrefix(r, prop+".") {
+				own = true
+			}
+		}
+		if !own {
+			continue
+		}
+		m := m
+		jobs = append(jobs, &job{res: variantResult{ID: m.ID, Kind: "mutant", Expected: m.Rules, Desc: m.Desc}, overlay: func(dir string) string { return overlayForEdits(dir, m.Edits) }})
+	}
+	for _, kind := range []string{"seeded", "benign"} {
+		ents, _ := os.ReadDir(filepath.Join(root, kind))
+		for _, en := range ents {
+			if !en.IsDir() {
+				continue
+			}
+			// seeds: those of this property; benign edits: every one that touches code this check loads
+			if kind == "seeded" && !strings.HasPrefix(en.Name(), prop+"-") {
+				continue
+			}
+			if kind == "benign" && !strings.HasPrefix(en.Name(), prop+"-") && !strings.HasPrefix(en.Name(), "R2-"+prop+"-") {
+				continue
+			}
+			patch := filepath.Join(root, kind, en.Name(), "patch.diff")
+			if !fileExists(patch) {
+				continue
+			}
+			k := "seed"
+			if kind == "benign" {
+				k = "benign"
+			}
+			jobs = append(jobs, &job{res: variantResult{ID: en.Name(), Kind: k}, overlay: func(dir string) string { return overlayForPatch(root, dir, patch) }})
+		}
+	}
+	tmp, err := os.MkdirTemp("", "ledgerlint-selftest-")
+	if err != nil {
+		return map[string]any{"error": err.Error()}
+	}
+	defer os.RemoveAll(tmp)
+	sem := make(chan struct{}, 4)
+	var wg sync.WaitGroup
+	for i, j := range jobs {
+		wg.Add(1)
+		go func(i int, j *job) {
+			defer wg.Done()
+			sem <- struct{}{}
+			defer func() { <-sem }()
+			dir := filepath.Join(tmp, fmt.Sprintf("v%d", i))
+			os.MkdirAll(dir, 0o755)
+			defer os.RemoveAll(dir)
+			ov := j.overlay(dir)
+			if ov == "" {
+				j.res.Status = "stale"
+				return
+			}
+			n, rules, ok := runVariant(prop, ov, dir)
+			j.res.Rules = rules
+			switch {
+			case !ok:
+				j.res.Status = "error"
+			case j.res.Kind == "benign" && n == 0:
+				j.res.Status = "quiet"
+			case j.res.Kind == "benign":
+				j.res.Status = "false-alarm"
+			case n > 0:
+				j.res.Status = "detected"
+			default:
+				j.res.Status = "missed"
+			}
+		}(i, j)
+	}
+	wg.Wait()
+	counts := map[string]int{}
+	var results []variantResult
+	var attention []string
+	for _, j := range jobs {
+		counts[j.res.Kind+":"+j.res.Status]++
+		results = append(results, j.res)
+		if j.res.Status == "missed" || j.res.Status == "false-alarm" || j.res.Status == "error" {
+			attention = append(attention, j.res.Kind+" "+j.res.ID+": "+j.res.Status)
+		}
+	}
+	sort.Slice(results, func(a, b int) bool { return results[a].Kind+results[a].ID < results[b].Kind+results[b].ID })
+	return map[string]any{
+		"what":      "checker re-run in child processes on source variants through go/packages overlays (nothing written to /repo): catalogue mutants and seeded changes must be reported, behaviour-preserving refactorings must stay quiet; stale = the entry's text no longer matches the tree",
+		"variants":  len(jobs),
+		"counts":    counts,
+		"attention": attention,
+		"results":   results,
+	}
+}
+
+// selftest <Cxx|all>: prints the sensitivity matrix without writing evidence.
+func selftest(ids []string) int {
+	if len(ids) < 2 {
+		fmt.Fprintln(os.Stderr, "usage: ledgerlint selftest <Cxx|all>")
+		return 2
+	}
+	var props []string
+	if ids[1] == "all" {
+		for id := range checks {
+			props = append(props, id)
+		}
+		sort.Strings(props)
+	} else {
+		props = strings.Split(ids[1], ",")
+	}
+	bad := 0
+	for _, p := range props {
+		s := runSensitivity(p)
+		b, _ := json.Marshal(s["counts"])
+		fmt.Printf("%s: %d variants %s\n", p, s["variants"], b)
+		for _, a := range s["attention"].([]string) {
+			fmt.Println("   ATTENTION " + a)
+			bad++
+		}
+		if len(ids) > 2 && ids[2] == "v" {
+			for _, r := range s["results"].([]variantResult) {
+				fmt.Printf("   %-7s %-12s %-11s %v\n", r.Kind, r.ID, r.Status, r.Rules)
+			}
+		}
+	}
+	if bad > 0 {
+		return 1
+	}
+	return 0
+}
